@@ -1374,9 +1374,19 @@ class C14(Prop):
             for t in ([b"example", b"org"], [b"b", b"example", b"org"]):
                 names += [[lo.encode()] + t, [b"mail", up.encode()] + t, [up.encode()] + t, [b"www", lo.encode()] + t]
         fold = ["R %d %d E Dns %s" % (max(reps * 8, 256), th, G.canon(name_seq_msg(names))) for th in (1, 16)]
+        # inputs whose FIRST compressed name needs several pointer hops, on threads that decode rejected inputs in between
+        # (the harness interleaves them on every second thread): state surviving a failed call would show here
+        hist = []
+        for hops in (2, 3, 5, 9, 16):
+            w = G.chain_message(rng, hops)
+            for th in (1, 4, 16):
+                hist.append("R %d %d D Dns %s" % (max(reps, 48), th, G.hexs(w)))
+        for nm in (b"\x01x\xc0\x04\xc0\x06\x01y\x00", b"\xc0\x02\xc0\x04\x01z\x00", b"\x01a\xc0\x04\x01b\xc0\x08\x01c\x00"):
+            for th in (1, 16):
+                hist.append("R %d %d D DomainName %s" % (max(reps, 48), th, G.hexs(nm)))
         return [("encode-repeated", enc), ("encode-name-heavy-16-threads", heavy), ("decode-repeated", dec),
                 ("encode-straddling-0x3FFF-16-threads", edge), ("encode-hundreds-of-names-16-threads", many),
-                ("encode-names-differing-in-non-ascii-case", fold)]
+                ("encode-names-differing-in-non-ascii-case", fold), ("decode-pointer-chains-after-rejected-inputs", hist)]
 
     def view(self, case, line):
         # determinism is the property: compare how many distinct results there were and whether the input
